@@ -650,7 +650,7 @@ func (d *ColumnDetector) createColumnsFromGaps(fragments []text.TextFragment, ga
 
 // validateColumns validates and cleans up detected columns
 func (d *ColumnDetector) validateColumns(columns []Column) []Column {
-	var valid []Column
+	var valid, narrow []Column
 
 	for _, col := range columns {
 		// Skip empty columns
@@ -658,12 +658,31 @@ func (d *ColumnDetector) validateColumns(columns []Column) []Column {
 			continue
 		}
 
-		// Skip columns that are too narrow
+		// Regions that are too narrow are not columns of their own
 		if col.BBox.Width < d.config.MinColumnWidth {
+			narrow = append(narrow, col)
 			continue
 		}
 
 		valid = append(valid, col)
+	}
+
+	// The text of a too-narrow region still belongs to the page: fold it into the
+	// nearest column instead of discarding it (it becomes a column only when there is no other).
+	for _, col := range narrow {
+		if len(valid) == 0 {
+			valid = append(valid, col)
+			continue
+		}
+		center := col.BBox.X + col.BBox.Width/2
+		best := 0
+		for i := range valid {
+			if absFloat64(valid[i].BBox.X+valid[i].BBox.Width/2-center) < absFloat64(valid[best].BBox.X+valid[best].BBox.Width/2-center) {
+				best = i
+			}
+		}
+		valid[best].Fragments = append(valid[best].Fragments, col.Fragments...)
+		valid[best].BBox = fragmentsBBox(valid[best].Fragments)
 	}
 
 	// Re-index columns
